@@ -1,5 +1,6 @@
 import Proofs.SortExt
 import Proofs.SortCode
+import Proofs.SortCanon
 /-!
 # C16 — External sort returns the sorted (and combined) multiset of its input
 
@@ -193,6 +194,129 @@ theorem extSort_eq_spec {lt : α → α → Bool} (h : StrictWeak lt) (blocks : 
   refine Perm.eq_of_pairwise (le := fun a b => lt b a = false) ?_ s1 s2 (p1.trans (mergeSort_perm _ _).symm)
   intro a b ha hb hab hba
   exact htot a b (p1.subset ha) ((mergeSort_perm _ _).subset hb) hba hab
+
+/-! ## With the counting combiner the result is canonical
+
+`Counting lt key val comb`: the order tells records apart exactly by their key, a record is
+determined by key and value, the combiner merges exactly records with equal keys and adds the
+values (`CombineCounts` under Suffix/Prefix/ContextOrder).  Then the output is *the* list with
+one record per key of the input, in increasing order, carrying the key's total — whatever the
+blocks, the plan and the tie-breaks, provided something is merged at all (at least two
+non-empty blocks) or the blocks were duplicate-free. -/
+
+theorem blockSort_nonempties_length (lt : α → α → Bool) : ∀ (blocks : List (List α)),
+    (nonempties (blocks.map (blockSort lt))).length = (nonempties blocks).length
+  | [] => rfl
+  | b :: bs => by
+    have ih := blockSort_nonempties_length lt bs
+    have hl := (blockSort_perm lt b).length_eq
+    cases b with
+    | nil =>
+      have : blockSort lt ([] : List α) = [] := List.eq_nil_of_length_eq_zero (by simpa using hl)
+      simpa [nonempties, this] using ih
+    | cons x xs =>
+      cases hbs : blockSort lt (x :: xs) with
+      | nil => rw [hbs] at hl; simp at hl
+      | cons y ys => simpa [nonempties, hbs] using ih
+
+/-- **extSort_combine (canonical form)** -/
+theorem extSort_canon {κ : Type} [DecidableEq κ] {lt : α → α → Bool} {key : α → κ} {val : α → Nat} {comb}
+    (C : Counting lt key val comb) (pick) (blocks : List (List α))
+    (hb : (∀ b ∈ blocks, (b.map key).Nodup) ∨ 2 ≤ (blocks.filter (fun b => !b.isEmpty)).length) (plan) {out}
+    (ho : extSort lt comb pick blocks plan = some out) : Canon lt key val blocks.flatten out := by
+  obtain ⟨runs', hp, he⟩ := extSort_unfold lt comb pick blocks plan
+  have ho' := ho
+  rw [he] at ho; cases ho
+  have h0 : StrictOrMany lt (nonempties (blocks.map (blockSort lt))) := by
+    refine ⟨initial_sorted C.sw blocks, ?_⟩
+    rcases hb with hb | hb
+    · right
+      intro r hr
+      obtain ⟨b, hbm, rfl⟩ := mem_map.mp (mem_nonempties.mp hr).1
+      have hs := blockSort_sorted C.sw b
+      have hn : ((blockSort lt b).map key).Nodup := ((blockSort_perm lt b).map key).nodup_iff.mpr (hb b hbm)
+      rw [Nodup, pairwise_map] at hn
+      refine hs.imp₂ (fun x y hle hne => ?_) hn
+      cases hxy : lt x y with
+      | true => rfl
+      | false => exact absurd ((C.keyEq x y).mp ⟨hxy, hle⟩) hne
+    · left
+      rw [blockSort_nonempties_length]; exact hb
+  have hinv := passes_induct (StrictOrMany lt) (fun sizes r r' hP hp => pass_strictOrMany C pick sizes hP hp)
+    plan _ _ h0 hp
+  have hk0 : SameKeys key blocks.flatten (nonempties (blocks.map (blockSort lt))).flatten := by
+    rw [flatten_nonempties]; exact SameKeys.of_perm (flatten_map_blockSort_perm lt blocks).symm
+  have hkeys := passes_induct (fun r => SameKeys key blocks.flatten r.flatten)
+    (fun sizes r r' hP hp => hP.trans (pass_sameKeys C pick sizes hp)) plan _ _ hk0 hp
+  refine ⟨finalMerge_strict' C pick hinv, hkeys.trans (finalMerge_sameKeys C pick runs'), fun k => ?_⟩
+  exact extSort_sum C.sw pick _ (C.additive k) blocks plan ho'
+
+/-- **extSort_combine_unique**: with the counting combiner the result is independent of blocks,
+plan and tie-breaks (inputs that are permutations of each other, each cut into at least two
+non-empty blocks or into duplicate-free blocks). -/
+theorem extSort_combine_unique {κ : Type} [DecidableEq κ] {lt : α → α → Bool} {key : α → κ} {val : α → Nat} {comb}
+    (C : Counting lt key val comb) (blocks₁ blocks₂ : List (List α))
+    (hb₁ : (∀ b ∈ blocks₁, (b.map key).Nodup) ∨ 2 ≤ (blocks₁.filter (fun b => !b.isEmpty)).length)
+    (hb₂ : (∀ b ∈ blocks₂, (b.map key).Nodup) ∨ 2 ≤ (blocks₂.filter (fun b => !b.isEmpty)).length)
+    (hperm : blocks₁.flatten ~ blocks₂.flatten) (pick₁ pick₂) (plan₁ plan₂) :
+    extSort lt comb pick₁ blocks₁ plan₁ = extSort lt comb pick₂ blocks₂ plan₂ := by
+  obtain ⟨o1, h1⟩ := extSort_isSome lt comb pick₁ blocks₁ plan₁
+  obtain ⟨o2, h2⟩ := extSort_isSome lt comb pick₂ blocks₂ plan₂
+  rw [h1, h2]
+  congr 1
+  exact Canon.unique C (extSort_canon C pick₁ blocks₁ hb₁ plan₁ h1) (extSort_canon C pick₂ blocks₂ hb₂ plan₂ h2) hperm
+
+/-- … and it is the value the driver prints (`sortSpec`): sort everything, fold equal neighbours. -/
+theorem extSort_combine_eq_spec {κ : Type} [DecidableEq κ] {lt : α → α → Bool} {key : α → κ} {val : α → Nat} {comb}
+    (C : Counting lt key val comb) (blocks : List (List α))
+    (hb : 2 ≤ (blocks.filter (fun b => !b.isEmpty)).length) (pick) (plan) :
+    extSort lt comb pick blocks plan = some (sortSpec lt comb blocks) := by
+  obtain ⟨o1, h1⟩ := extSort_isSome lt comb pick blocks plan
+  rw [h1]
+  congr 1
+  have hspec : sortSpec lt comb blocks = combineAdj comb (blocks.flatten.mergeSort (le lt)) := by
+    unfold sortSpec
+    simp only
+    rw [if_neg (by omega)]
+  rw [hspec]
+  have hp : blocks.flatten.mergeSort (le lt) ~ blocks.flatten := mergeSort_perm _ _
+  have hcanon : Canon lt key val blocks.flatten (combineAdj comb (blocks.flatten.mergeSort (le lt))) := by
+    refine ⟨combineAdj_strict C.sw C.keeps C.combComplete _ (blockSort_sorted C.sw _),
+      (SameKeys.of_perm hp.symm).trans (combineAdj_sameKeys C _), fun k => ?_⟩
+    unfold tot
+    rw [combineAdj_sum _ (C.additive k)]
+    exact (hp.map _).sum_nat
+  exact Canon.unique C (extSort_canon C pick blocks (Or.inr hb) plan h1) hcanon (Perm.refl _)
+
+/-- `CombineCounts` under `SuffixOrder` (the production pairing) satisfies `Counting` -/
+theorem counting_suffix : Counting suffixLt Rec.key Rec.payload combineCounts where
+  sw := lexLt_strictWeak.comap _
+  keyEq := fun a b => by
+    constructor
+    · intro ⟨h1, h2⟩; exact List.reverse_inj.mp (lexLt_tri _ _ h1 h2)
+    · intro hk; simp [suffixLt, hk, lexLt_irrefl]
+  inj := fun a b h1 h2 => by cases a; cases b; simp_all
+  add := fun a b c h => by
+    unfold combineCounts at h
+    by_cases hab : a.key = b.key
+    · simp only [hab, ↓reduceIte, Option.some.injEq] at h; subst h; simp [hab]
+    · simp [hab] at h
+  complete := fun a b h => by simp [combineCounts, h]
+
+/-- `CombineCounts`-style combiner under `PrefixOrder` -/
+theorem counting_prefix : Counting prefixLt Rec.key Rec.payload combineCounts where
+  sw := lexLt_strictWeak.comap _
+  keyEq := fun a b => by
+    constructor
+    · intro ⟨h1, h2⟩; exact lexLt_tri _ _ h1 h2
+    · intro hk; simp [prefixLt, hk, lexLt_irrefl]
+  inj := fun a b h1 h2 => by cases a; cases b; simp_all
+  add := fun a b c h => by
+    unfold combineCounts at h
+    by_cases hab : a.key = b.key
+    · simp only [hab, ↓reduceIte, Option.some.injEq] at h; subst h; simp [hab]
+    · simp [hab] at h
+  complete := fun a b h => by simp [combineCounts, h]
 
 /-! ## The plan the code computes
 
